@@ -27,6 +27,16 @@ def main():
             rec = json.load(fh)
         return mod.replay(rec) if hasattr(mod, 'replay') else core.generic_replay(mod, rec)
     ctx = core.Ctx(pid, a.tier, seed)
+    # watchdog: a check must never hang (a stuck worker pool, a TLC that does not return): machinery failure after the limit
+    import threading
+    limit = float(os.environ.get('VERIF_TIMEOUT_S', '2700' if a.tier == 'quick' else '21600'))
+
+    def _expired():
+        print('MACHINERY-FAILURE property=%s: no result after %.0f s (watchdog)' % (pid, limit), flush=True)
+        os._exit(2)
+    wd = threading.Timer(limit, _expired)
+    wd.daemon = True
+    wd.start()
     try:
         return mod.main(ctx)
     except Exception:
